@@ -8,7 +8,6 @@ import streams
 
 ID = "C02"
 LEVEL = "proof"
-NOT_CLAIMED = "in progress: model, correspondence and oracle search are running; the theorems of the lemma chain are being proved"
 MODEL_TARGETS = ["theories/Analysis.vo", "theories/Calculus.vo"]
 TRANSLATORS = ["semiring", "rules"]
 LEVEL_TEXT = ("Theorems in coq/props/C02.v about the Coq model of Analysis.func/cmds (early exit through the delta graph, complete verdict through the "
